@@ -27,7 +27,7 @@ def main():
         if a in ("all", "missed"):
             for p in sorted(glob.glob(os.path.join(VERIF, "seeded", "C*", "*", "meta.json"))):
                 m = json.load(open(p))
-                if m.get("obsolete"):
+                if m.get("obsolete") or m.get("out_of_scope"):
                     continue
                 if a == "all" or not m.get("check_result", {}).get("caught"):
                     targets.append(os.path.relpath(os.path.dirname(p), os.path.join(VERIF, "seeded")))
